@@ -484,7 +484,32 @@ def standin_aqt(tier, seed):
             fails.append(dict(args=dict(circuit=repr(c), payload=js[:400]), failed="aqt-payload-unitary", clause="AQT operation list is not the circuit's unitary (up to global phase)"))
         if len(fails) >= 3:
             break
-    return dict(function="cirq-aqt/cirq_aqt/aqt_sampler.py:AQTSampler._generate_json", case="aqt", bound="seeded circuits over Z/R/MS, 2-3 qubits, <= 5 ops",
+    # samples come back as one column per line index: circuits that flip a chosen subset of (not necessarily contiguous) qubits
+    from cirq_aqt.aqt_sampler import AQTSamplerLocalSimulator
+    flip = cirq.PhasedXPowGate(phase_exponent=0, exponent=1.0)
+    for _ in range(10 if tier == "quick" else 100):
+        used = sorted(rng.sample(range(5), rng.randrange(1, 4)))
+        flipped = [i for i in used if rng.random() < 0.6]
+        ops = [flip.on(cirq.LineQubit(i)) if i in flipped else (cirq.Z ** 0.5).on(cirq.LineQubit(i)) for i in used]
+        c = cirq.Circuit(ops)
+        seen = {}
+        class Spy(AQTSamplerLocalSimulator):
+            def _send_json(self, *, json_str, id_str, repetitions=1, num_qubits=1):
+                seen.update(num_qubits=num_qubits, payload=json_str)
+                return super()._send_json(json_str=json_str, id_str=id_str, repetitions=repetitions, num_qubits=num_qubits)
+        cases += 1
+        try:
+            res = Spy(simulate_ideal=True).run(c, repetitions=3)
+        except Exception as ex:
+            fails.append(dict(args=dict(circuit=repr(c)), failed="aqt-run-raised", clause=f"running a circuit on line qubits {used} raised {ex!r}"))
+            continue
+        addressed = {i for entry in json.loads(seen["payload"]) for i in entry[-1]}
+        rows = np.asarray(res.measurements["m"]).astype(int)
+        if max(addressed) >= seen["num_qubits"]:
+            fails.append(dict(args=dict(circuit=repr(c), num_qubits=seen["num_qubits"], payload=seen["payload"]), failed="aqt-register-size", clause="the payload addresses a qubit index outside the announced register"))
+        elif any(rows[r][i] != int(i in flipped) for r in range(rows.shape[0]) for i in used):
+            fails.append(dict(args=dict(circuit=repr(c), samples=rows.tolist()), failed="aqt-sample-columns", clause="column i of the samples is not the measurement of LineQubit(i)"))
+    return dict(function="cirq-aqt/cirq_aqt/aqt_sampler.py:AQTSampler._generate_json", case="aqt", bound="seeded circuits over Z/R/MS, 2-3 qubits, <= 5 ops; basis-state circuits on arbitrary subsets of 5 line qubits through the local sampler",
                 cases=cases, distinct=cases, failures=len(fails), exhaustive=False, _fails=fails[:3])
 standin_aqt.prop = "C17"
 STANDINS = [standin_ionq, standin_aqt, standin_ionq_measurement_table, standin_ionq_jobs]
